@@ -100,14 +100,19 @@ Definition go_format_g (neg : bool) (m e prec : Z) : option (list Z) :=
 
 (* ================= value_string.go ================= *)
 
-(* floatToString for a finite non-zero value.  [big] is the outcome of otto's
-   test  exponent >= 21 || exponent < -6  on exponent = math.Log10(|x|), which
-   the harness evaluates with the same library call and passes in. *)
-Definition float_to_string (big neg : bool) (m e : Z) : option (list Z) :=
+(* |x| < 1e-6 where 1e-6 is the double 0x3EB0C6F7A0B5ED8D = 0x10C6F7A0B5ED8D * 2^-72 *)
+Definition lt_bin (m e m' e' : Z) : bool :=
+  m * p2 (Z.max (e - e') 0) <? m' * p2 (Z.max (e' - e) 0).
+Definition below_1em6 (m e : Z) : bool := lt_bin m e 0x10C6F7A0B5ED8D (-72).
+(* floatToString's test  abs >= 1e21 || abs < 1e-6  on the value itself (1e21 is a double) *)
+Definition exp_form (m e : Z) : bool := le_pow10 21 m e || below_1em6 m e.
+
+(* floatToString for a finite non-zero value *)
+Definition float_to_string (neg : bool) (m e : Z) : option (list Z) :=
   match go_digits_shortest m e with
   | None => None
   | Some (ds, dp) =>
-      if big then
+      if exp_form m e then
         let ex := dp - 1 in
         (* FormatFloat(v,'g',-1): %e iff ex < -4 || ex >= 6, then the exponent rewrite *)
         if (ex <? -4) || (6 <=? ex) then Some (go_fmtE_gen true neg ds dp (lenZ ds - 1))
@@ -116,12 +121,25 @@ Definition float_to_string (big neg : bool) (m e : Z) : option (list Z) :=
   end.
 
 (* Value.string() of a float64 *)
-Definition value_string (big : bool) (bits : Z) : option (list Z) :=
+Definition value_string (bits : Z) : option (list Z) :=
   match decode bits with
   | DNaN => Some str_NaN
   | DInf neg => Some (with_sign neg str_Infinity)
-  | DFin neg m e => if m =? 0 then Some [ch_0] else float_to_string big neg m e
+  | DFin neg m e => if m =? 0 then Some [ch_0] else float_to_string neg m e
   end.
+
+(* Value.string() of an int64 payload: strconv.FormatInt prints every digit.  An
+   integer literal that fits int64 (parseNumberLiteral's ParseInt succeeds) is
+   kept as int64, so String(89634963422590256) prints all 17 digits although the
+   value is a double whose 9.8.1 text is shorter.  [intlit] = the harness bound x
+   through such a literal (positive, digits only). *)
+Definition value_string_k (intlit : bool) (bits : Z) : option (list Z) :=
+  if intlit then
+    match int_of_bits bits with
+    | Some n => if (0 <=? n) && (n <? 2 ^ 63) then Some (dec_digits n) else value_string bits
+    | None => value_string bits
+    end
+  else value_string bits.
 
 (* int64(float64) on amd64 (CVTTSD2SI): truncation, 0x8000000000000000 when out of range *)
 Definition go_int64 (neg : bool) (m e : Z) : Z :=
@@ -143,22 +161,23 @@ Definition number_to_string_radix (bits r : Z) : list Z :=
 (* ================= builtin_number.go ================= *)
 
 (* Number.prototype.toString(radix); r = None for undefined, else ToInteger(radix) *)
-Definition m_to_string (big : bool) (bits : Z) (r : option Z) : res :=
+Definition m_to_string_k (intlit : bool) (bits : Z) (r : option Z) : res :=
   match r with
-  | None => opt_res (value_string big bits)
+  | None => opt_res (value_string_k intlit bits)
   | Some r => if (r <? 2) || (36 <? r) then RErr 3
-              else if r =? 10 then opt_res (value_string big bits)
+              else if r =? 10 then opt_res (value_string_k intlit bits)
               else RStr (number_to_string_radix bits r)
   end.
+Definition m_to_string := m_to_string_k false.
 
-(* toFixed; [big] as above (only used when |x| >= 1e21) *)
-Definition m_to_fixed (big : bool) (bits f : Z) : res :=
+(* toFixed *)
+Definition m_to_fixed (bits f : Z) : res :=
   if (20 <? f) || (f <? 0) then RErr 3 else
   match decode bits with
   | DNaN => RStr str_NaN
   | DInf neg => RStr (with_sign neg str_Infinity)
   | DFin neg m e =>
-      if le_pow10 21 m e then opt_res (float_to_string big neg m e)
+      if le_pow10 21 m e then opt_res (float_to_string neg m e)
       else RStr (go_format_f neg m e f)
   end.
 
@@ -170,7 +189,7 @@ Definition m_to_exponential (bits : Z) (f : option Z) : res :=
   | DNaN => RStr str_NaN
   | d =>
       let prec := match f with Some f => f | None => -1 end in
-      if match f with Some f => f <? 0 | None => false end then RErr 3 else
+      if match f with Some f => (f <? 0) || (20 <? f) | None => false end then RErr 3 else
       match d with
       | DInf neg => RStr (go_inf neg)
       | DFin neg m e => opt_res (go_format_e neg m e prec)
@@ -183,7 +202,7 @@ Definition m_to_precision (bits p : Z) : res :=
   match decode bits with
   | DNaN => RStr str_NaN
   | d =>
-      if p <? 1 then RErr 3 else
+      if (p <? 1) || (21 <? p) then RErr 3 else
       match d with
       | DInf neg => RStr (go_inf neg)
       | DFin neg m e => opt_res (go_format_g neg m e p)
@@ -344,15 +363,16 @@ Definition acc_bits (neg : bool) (a : option Z) : Z :=
   | Some v => signed_bits neg (encode_int_or_nan v)
   end.
 
-(* toInt32 of value_number.go: int32(int64(float)) *)
-Definition m_to_int32 (bits : Z) : Z :=
-  match decode bits with
-  | DFin neg m e =>
-      if m =? 0 then 0 else
-      let v := (go_int64 neg m e) mod 2 ^ 32 in
-      if 2 ^ 31 <=? v then v - 2 ^ 32 else v
-  | _ => 0
-  end.
+(* toInt32 of value_number.go: int32(int64(math.Mod(float, 2^32))): the truncated value
+   modulo 2^32 folded into int32, for every finite double; 0 for NaN and infinities *)
+Definition m_to_int32 (bits : Z) : Z := to_int32 bits.
+
+(* the digits Z of parseInt turned into the result: strconv.ParseInt below 2^63 (int64, negated,
+   -0 made explicitly), the float64 accumulation beyond *)
+Definition m_parse_int_value (neg : bool) (base : Z) (ds : list Z) : Z :=
+  let v := radix_value base ds in
+  if v <? 2 ^ 63 then signed_bits neg (round_int v)
+  else acc_bits neg (float_accumulate base ds).
 
 Definition m_parse_int (l : list Z) (rbits : Z) : Z :=
   match trim_ws l with
@@ -373,11 +393,7 @@ Definition m_parse_int (l : list Z) (rbits : Z) : Z :=
                           end in
       match fst (scan_radix base in2) with
       | [] => nan_bits        (* strconv.ParseInt("") is a syntax error *)
-      | ds =>
-          let v := radix_value base ds in
-          (* int64 path: -0 does not exist there *)
-          if v <? 2 ^ 63 then (if neg && negb (v =? 0) then signed_bits true (round_int v) else round_int v)
-          else acc_bits neg (float_accumulate base ds)
+      | ds => m_parse_int_value neg base ds
       end
   end.
 
@@ -405,16 +421,16 @@ Fixpoint prefix_loop (n : nat) (l : list Z) : Z :=
       let v := firstn n l in
       if negb (match_valid v) then nan_bits
       else match go_parse_float v with
-           | Some (b, false) => b
-           | _ => prefix_loop k l
+           | Some (b, _) => b        (* err == nil, or ErrRange with +-Inf *)
+           | None => prefix_loop k l
            end
   end.
 Definition m_parse_float (l : list Z) : Z :=
   let input := trim_ws l in
   if bad_special input then nan_bits else
   match go_parse_float input with
-  | Some (b, false) => b
-  | _ => prefix_loop (length input) input
+  | Some (b, _) => b
+  | None => prefix_loop (length input) input
   end.
 
 (* ================= parser/lexer.go numeric literals ================= *)
